@@ -13,7 +13,7 @@
 (*                     Extra_property only tolerated, Drop_optional accepted with another value ...) *)
 (*   Base64Inverse, Base64Known, Base64Strict -- (ASSUME) the base64 codec round-trips, agrees with *)
 (*                     known vectors, and the strict decoder rejects every text of BADB64.          *)
-EXTENDS SdkModels
+EXTENDS SdkMut
 CONSTANTS Depth, MaxMut, Mode, ModelIds
 VARIABLES mi, x, fmt, doc, hist, strict, lenient
 vars == <<mi, x, fmt, doc, hist, strict, lenient>>
@@ -55,6 +55,9 @@ ResultTyped == /\ strict # Reject => WellTyped(Models[mi], strict, TCls(Models[m
                /\ lenient # Reject => lenient.k = "inst"
 KindPromise1(kind, at) ==
     /\ kind \in AlwaysRejectedKinds /\ at # "other_class" => strict = Reject /\ lenient = Reject
+    \* a wrong namespace is never accepted, except on an item of primitive type (a lenient reader does not look at it)
+    /\ kind = "Wrong_namespace" => strict = Reject /\ (at # "list_item" => lenient = Reject)
+    /\ kind = "Unknown_item" => strict = Reject
     /\ kind \in ToleratedKinds => strict = Reject /\ lenient # Reject
     /\ kind \in AcceptedKinds => strict # Reject
     /\ kind \in {"Reorder", "Whitespace_text"} => strict = x
